@@ -20,22 +20,44 @@ META = {
     "resolution), scaled_down_geobox, buffered, pixel- and world-side affine composition; covering laws where "
     "documented; GCP geoboxes inherit every contract through an arbitrary pixel->world function.  The model is tied "
     "to /repo on every run by an exact correspondence (dyadic affines, exhaustive small index / zoom / align domains, "
-    "random parameters) and an independent Fraction oracle that also judges arbitrary doubles (float stream).",
+    "random parameters) and an independent Fraction oracle that also judges arbitrary doubles (float stream).  Growth "
+    "round 2 (Model/C02Glue, Props/C02Glue, Props/C02C20, harness/c02_glue.py): the glue between that core and the public "
+    "entry points is modelled, proved and tied — shape_ / res_ / int() for every spelling of a shape or resolution "
+    "(tuple, list, XY, Shape2d, Index2d, numpy scalars, bool, bare number, Resolution) at GeoBox(), crop, expand, "
+    "zoom_to, GCPGeoBox(); the dispatch of zoom_to on (shape, resolution=) with all error branches and end-to-end "
+    "contracts from the arguments as spelled (same footprint / longest side / covers the bounding box = C08 from_bbox); "
+    "the dispatch of gbox[...] on int / slice / tuple / list / BoundingBox / Geometry / GeoBox incl. stepped slices "
+    "(never silently step 1), wrong tuple lengths, CRS-less parent, exhaustively over a pool of 16 entries, and the tie to "
+    "numpy's selection; enclosing / project argument handling (project is its own inverse); is_empty, aspect, the two "
+    "intermediates of footprint() (buffer distance never erodes, densification step) observed by interposition; "
+    "GCPGeoBox.pix2wld / wld2pix / extent / boundingbox / map_bounds / approx / resolution / to_crs composed with an "
+    "exactly affine mapping (boundingbox contains the footprint for every pixel->world function; approx of exact "
+    "control points = B o A via C20's affine_from_pts_exact); scaled_down_geobox = zoom_out on non-empty geoboxes.",
     "note": "Trusted: Lean kernel + {propext, Classical.choice, Quot.sound}; IEEE rounding is not modelled (theorems "
     "over exact rationals, doubles sampled with 1e-9 relative slack, shapes exact); square roots of the "
     "rotated-resolution decomposition enter as witnesses (numpy.linalg trusted); the GCP polynomial fit is an abstract "
     "function pair (only its model selection fitKind is modelled; exact reproduction of in-family data is C20's "
-    "poly_fit_exact_*; fit quality otherwise sampled against exact ground truth).  NOT mirrored in the Lean model "
+    "poly_fit_exact_*; fit quality otherwise sampled against exact ground truth).  Growth round 2: reprojection between different CRSs is an "
+    "abstract function parameter of getitem / enclosingArg / project / gcpToCrs (theorems hold for every such function; "
+    "the driver refuses other-CRS lines, pyproj is sampled by the oracle); the GCP composition is compared exactly with "
+    "the mapping's cached p2w / w2p / approx pinned to an exact affine pair (the least-squares fit itself is C20); "
+    "gcp_approx_of_exact_gcps keeps C20's hypothesis that LAPACK returns a minimiser; gcp_to_crs_consistent needs the "
+    "view's affine to be the identity or not within 1e-5 of it (Affine.is_identity): the excluded case is the proved "
+    "counterexample gcp_to_crs_near_identity_cex, replayed on the real code and reported as finding candidate "
+    "gcp-to-crs-near-identity-view (counted until registered); numpy.float64(0) as zoom_to target divides to inf "
+    "instead of raising (outside the model, excluded from the generator).  NOT mirrored in the Lean model "
     "(inventory of the anchor files): geobox.py - from_bbox non-tight / from_geopolygon / _norm_anchor (C08), "
-    "footprint(buffer, other crs) and geographic_extent / map_bounds WITH reprojection, _reproject_resolution, "
-    "qr2sample (quasi-random constants are irrational), project / compute_crop / enclosing for regions in ANOTHER crs "
-    "(pyproj; oracle only), compute_crop errors for stepped slices and >2 entries (index-kind table only), snap_to, "
+    "the shapely buffer and the reprojection inside footprint(buffer, other crs), geographic_extent / map_bounds WITH "
+    "reprojection, qr2sample (quasi-random constants are irrational), index / region objects that are neither numbers, "
+    "slices, sequences of those nor BoundingBox / Geometry / GeoBox (TypeError / AttributeError: index-kind table only), "
+    "empty geometries on a singular geobox, snap_to, "
     "overlap_roi, |, &, geobox_union/intersection_conservative, pixel_translation, bounding_box_in_pixel_domain (C16), "
     "to_crs (C11), __eq__/__hash__/__dask_tokenize__ (C19), svg/grid_lines/outline/explore/_ui, compat, from_rio, "
     "GeoboxTiles (C04/C12); geom.py - BoundingBox.buffered/transform/to_crs/boundary/qr2sample/aoi, shapely polygon "
     "construction behind polygon_from_transform (vertex list only); gcp.py - GCPMapping numerics (Poly2d.fit "
-    "back-ends, affine_from_pts: abstract P, Q, B), GCPGeoBox.to_crs / from_rio / map_bounds with reprojection, "
-    "__eq__/__hash__; math.py - decompose_rws factors R and W (only the scale diagonal), snap_affine, snap_scale, "
+    "back-ends, affine_from_pts: abstract P, Q, B), GCPGeoBox.from_rio / map_bounds with reprojection, "
+    "__eq__/__hash__, GCPMapping.__init__ point-set normalisation; types.py - xy_/yx_/ixy_/iyx_ constructors themselves (their "
+    "results are the XY inputs of shapeNorm), Shape2d/XY arithmetic; math.py - decompose_rws factors R and W (only the scale diagonal), snap_affine, snap_scale, "
     "split_translation, Poly2d evaluation, norm_xy, quasi_random_r2 (C20 or unmodelled); affine - rotation from "
     "degrees (cos/sin are inputs), shear, the identity shortcut of itransform; boundary()'s float32 linspace rounding.",
     "technique": "Lean 4 proof over hand model + differential correspondence with real code",
@@ -68,9 +90,34 @@ def crs_tag(crs) -> int:
     return 99
 
 
+def aff_of(g):
+    """pixel-side affine of a GeoBox / GCPGeoBox: the public accessor where the class has one, else the private slot,
+    else the last six entries of the (public) dask token"""
+    A = getattr(g, "affine", None)
+    if A is None:
+        A = getattr(g, "_affine", None)
+    if A is None:
+        from affine import Affine
+        A = Affine(*[float(v) for v in g.__dask_tokenize__()[-6:]])
+    return A
+
+
+def mapping_of(g, default=None):
+    return getattr(g, "_mapping", default)
+
+
+def mapping_points(mapping):
+    """(pix, wld) control points of a GCPMapping as lists of (x, y): public points() first, private arrays as fallback"""
+    try:
+        pix, wld = mapping.points()
+        return [tuple(map(float, p.coords[0])) for p in pix.geoms], [tuple(map(float, p.coords[0])) for p in wld.geoms]
+    except Exception:  # pylint: disable=broad-except
+        return [tuple(map(float, p)) for p in getattr(mapping, "_pix")], [tuple(map(float, p)) for p in getattr(mapping, "_wld")]
+
+
 def enc_gb(g) -> str:
     ny, nx = g.shape
-    A = getattr(g, "_affine")
+    A = aff_of(g)
     return f"{int(ny)} {int(nx)} {enc_aff(A)} {crs_tag(g.crs)}"
 
 
@@ -117,6 +164,19 @@ def frac_sqrt(q: F):
     if rn * rn == n and rd * rd == d and rd & (rd - 1) == 0:
         return F(rn, rd)
     return None
+
+
+def chol_witness(A):
+    """(n, m): the two square roots of decompose_rws for affine A (six Fractions) when LAPACK computes them without
+    rounding — both dyadic, and the off-diagonal Cholesky entry w = (ab+de)/n is either 0 or n is a power of two
+    (dpotrf scales by the reciprocal 1/n, which is exact only then); (None, None) otherwise"""
+    n = frac_sqrt(A[0] ** 2 + A[3] ** 2)
+    if not n:
+        return None, None
+    w = (A[0] * A[1] + A[3] * A[4]) / n
+    if w != 0 and (n.numerator & (n.numerator - 1)) != 0:
+        return n, None
+    return n, frac_sqrt(A[1] ** 2 + A[4] ** 2 - w * w)
 
 
 # ------------------------------------------------------------------ generators
@@ -268,7 +328,7 @@ def check_contract(cx: Ctx, op: str, g, g2, args, T=None, W=None, shape=None):
     if shape is not None:
         R.oracle(tuple(map(int, g2.shape)) == tuple(shape), f"{op}-shape", case,
                  f"{op}: shape {tuple(g2.shape)} but the contract gives {tuple(shape)}")
-    A, A2 = fa(g._affine), fa(g2._affine)
+    A, A2 = fa(aff_of(g)), fa(aff_of(g2))
     T = FA_ID if T is None else T
     E = fa_mul(A, T)
     if W is not None:
@@ -297,7 +357,7 @@ def check_base_views(cx: Ctx, g, TNI, tag="base"):
 def _check_base_views(cx: Ctx, g, TNI, tag="base"):
     """inverse, extent, bounding box, coordinates, resolution of one geobox (real outputs vs Fractions)."""
     R = cx.R
-    A = fa(g._affine)
+    A = fa(aff_of(g))
     ny, nx = map(int, g.shape)
     case = {"op": "views", "gbox": enc_gb(g), "args": []}
     sc = world_scale(A, (ny, nx))
@@ -337,7 +397,7 @@ def _check_base_views(cx: Ctx, g, TNI, tag="base"):
     rotated = A[1] != 0 or A[3] != 0
     R.oracle(ok, "bbox-misses-corner", case,
              f"boundingbox {tuple(bb.bbox)} is not the hull {tuple(map(float, hull))} of the four corner images "
-             f"(affine {tuple(g._affine)[:6]}, shape {(ny, nx)})", sig="bbox|" + ("rotated" if rotated else "st"))
+             f"(affine {tuple(aff_of(g))[:6]}, shape {(ny, nx)})", sig="bbox|" + ("rotated" if rotated else "st"))
     R.oracle(bb.crs == g.crs, "bbox-crs-changed", case, "", trivial=True)
     # --- coordinates / resolution
     tol = F(1e-10)
@@ -368,7 +428,7 @@ def _check_base_views(cx: Ctx, g, TNI, tag="base"):
             be2 = A[1] ** 2 + A[4] ** 2
             ok = res.x > 0 and abs(F(res.x) ** 2 - n2) <= F(1, 10**9) * n2 and \
                 abs(F(res.x) * F(res.y) - det) <= F(1, 10**9) * abs(det) + F(1, 10**12) * n2 * be2 / abs(det)
-        R.oracle(ok, "resolution", case, f"resolution {res} for affine {tuple(g._affine)[:6]}",
+        R.oracle(ok, "resolution", case, f"resolution {res} for affine {tuple(aff_of(g))[:6]}",
                  sig="res|" + ("st" if st else "rotated"))
 
 
@@ -490,7 +550,7 @@ class Ops:
                 tail = frac_s(deg)
 
             def contract(cx, g, g2, args):
-                A = fa(g._affine)
+                A = fa(aff_of(g))
                 c0 = fa_apply(A, (F(nx) / 2, F(ny) / 2))
                 if exact:
                     cc, ss = F(c), F(s)
@@ -502,7 +562,7 @@ class Ops:
                 W = (cc, -ss, c0[0] - c0[0] * cc + c0[1] * ss, ss, cc, c0[1] - c0[0] * ss - c0[1] * cc)
                 check_contract(cx, op, g, g2, args, W=W, shape=(ny, nx))
                 # rotation about the centre: centre fixed, distances to the centre preserved
-                A2 = fa(g2._affine)
+                A2 = fa(aff_of(g2))
                 sc = world_scale(A, (ny, nx))
                 okc = cx.pt_close(fa_apply(A2, (F(nx) / 2, F(ny) / 2)), c0, sc)
                 cx.R.oracle(okc, "rot-centre-moved", case_of(op, g, args), "rotate moved the centre of the footprint")
@@ -522,7 +582,7 @@ class Ops:
                 (a, b, d, e), tcls = gen_linear_exact(rng)
                 while tcls == "st-tiny-shear":
                     (a, b, d, e), tcls = gen_linear_exact(rng)
-                Ag = fa(g._affine)
+                Ag = fa(aff_of(g))
                 if F(2) ** -36 in (abs(Ag[1]), abs(Ag[3])):
                     # parent with a sub-tolerance shear: keep the product exact with a small axis-aligned T
                     a, b, d, e = rng.choice([-1, 1]) * pow2(rng, -1, 1), 0.0, 0.0, rng.choice([-1, 1]) * pow2(rng, -1, 1)
@@ -589,7 +649,7 @@ class Ops:
             def contract(cx, g, g2, args):
                 check_contract(cx, op, g, g2, args, T=fa_sc(F(nx) / F(s2[1]), F(ny) / F(s2[0])), shape=s2)
                 # same footprint: far corner maps to the same world point
-                A, A2 = fa(g._affine), fa(g2._affine)
+                A, A2 = fa(aff_of(g)), fa(aff_of(g2))
                 ok = cx.pt_close(fa_apply(A2, (F(s2[1]), F(s2[0]))), fa_apply(A, (F(nx), F(ny))), world_scale(A, (ny, nx)))
                 cx.R.oracle(ok, "ztos-footprint-changed", case_of(op, g, args), "zoom_to(shape) changed the footprint")
             arg = rng.choice([s2, s2, list(s2)])
@@ -656,12 +716,12 @@ class Ops:
                 if rx == 0 or ry == 0:
                     return
                 case = case_of(op, g, args)
-                A2 = fa(g2._affine)
+                A2 = fa(aff_of(g2))
                 cx.R.oracle(g2.crs == g.crs, "ztor-crs-changed", case, "", trivial=True)
                 cx.R.oracle(A2[0] == F(rx) and A2[4] == F(ry) and A2[1] == 0 and A2[3] == 0, "ztor-resolution", case,
-                            f"zoom_to(resolution={rx, ry}) has affine {tuple(g2._affine)[:6]}")
+                            f"zoom_to(resolution={rx, ry}) has affine {tuple(aff_of(g2))[:6]}")
                 # covers the bounding box of the original up to tol=0.01 px, and by less than a pixel too much
-                A = fa(g._affine)
+                A = fa(aff_of(g))
                 cs = [fa_apply(A, (F(x), F(y))) for x, y in [(0, 0), (0, ny), (nx, ny), (nx, 0)]]
                 ny2, nx2 = map(int, g2.shape)
                 cs2 = [fa_apply(A2, (F(x), F(y))) for x, y in [(0, 0), (nx2, ny2)]]
@@ -700,12 +760,8 @@ class Ops:
                 check_contract(cx, op, g, g2, args, T=fa_sc(k, k), shape=shp)
             return str(k), (lambda: GB.scaled_down_geobox(g, k)), contract
         if op == "buf":
-            A = fa(g._affine)
-            n = frac_sqrt(A[0] ** 2 + A[3] ** 2)
-            m = None
-            if n:
-                w = (A[0] * A[1] + A[3] * A[4]) / n
-                m = frac_sqrt(A[1] ** 2 + A[4] ** 2 - w * w)
+            A = fa(aff_of(g))
+            n, m = chol_witness(A)
             st = abs(A[1]) < F(1e-10) and abs(A[3]) < F(1e-10)
             if exact and not st and (n is None or m is None):
                 return None
@@ -809,14 +865,14 @@ def narrow(A, span=38) -> bool:
 
 def base_view_lines(R: Run, ops: Ops, g, cls: str):
     """correspondence lines for the views of one geobox (exact stream)"""
-    if not narrow(tuple(g._affine)[:6]):
+    if not narrow(tuple(aff_of(g))[:6]):
         R.count("skipped-view-lines:not-narrow")
         return
     GB, _, Affine, TNI = ops.GB, ops.GCP, ops.Affine, ops.TNI
     rng = R.rng
     gs = enc_gb(g)
     ny, nx = map(int, g.shape)
-    A = fa(g._affine)
+    A = fa(aff_of(g))
     for _ in range(2):
         x, y = rng.randint(-64, 8 * 70) / 8.0, rng.randint(-64, 8 * 70) / 8.0
         R.corr(f"c02 p2w {gs} {frac_s(x)} {frac_s(y)}", lambda: " ".join(frac_s(v) for v in g.pix2wld(x, y)), sig=f"p2w|{cls}")
@@ -853,11 +909,7 @@ def base_view_lines(R: Run, ops: Ops, g, cls: str):
         ys, xs = [co[d].values for d in g.dimensions]
         return f"{list_s(ys, frac_s)} {list_s(xs, frac_s)}"
     R.corr(f"c02 coords {gs}", fc, sig=f"coords|{cls}")
-    n = frac_sqrt(A[0] ** 2 + A[3] ** 2)
-    m = None
-    if n:
-        w = (A[0] * A[1] + A[3] * A[4]) / n
-        m = frac_sqrt(A[1] ** 2 + A[4] ** 2 - w * w)
+    n, m = chol_witness(A)
     st = abs(A[1]) < F(1e-10) and abs(A[3]) < F(1e-10)
     if st or (n is not None and m is not None):
         def fr():
@@ -877,7 +929,7 @@ def _acc_slack(cx, gcp):
 def expected_p2w(g, gcp):
     """pixel -> world of a view from its (shape, affine) triple and, for GCP boxes, the composed mapping:
     exactly B o A when the control points are affinely related by B, else fit o A"""
-    A = fa(g._affine)
+    A = fa(aff_of(g))
     if gcp is None:
         return lambda p: fa_apply(A, p)
     if gcp["B"] is not None:
@@ -925,19 +977,19 @@ def acc_crs(cx, g, gcp, case):
 def acc_affine(cx, g, gcp, case):
     if gcp is not None:
         return True, ""
-    return g.affine == g._affine and g.transform == g._affine, "affine/transform is not the triple's affine"
+    return g.affine == aff_of(g) and g.transform == aff_of(g), "affine/transform is not the triple's affine"
 
 
 def acc_linear(cx, g, gcp, case):
-    A = fa(g._affine)
+    A = fa(aff_of(g))
     st = abs(A[1]) < F(1e-10) and abs(A[3]) < F(1e-10)
     if gcp is not None:
         return g.linear is False and g.axis_aligned is False, "GCP box claims to be linear / axis aligned"
-    return g.linear is True and bool(g.axis_aligned) == st, f"axis_aligned={g.axis_aligned} for affine {tuple(g._affine)[:6]}"
+    return g.linear is True and bool(g.axis_aligned) == st, f"axis_aligned={g.axis_aligned} for affine {tuple(aff_of(g))[:6]}"
 
 
 def acc_alignment(cx, g, gcp, case):
-    A = fa(g._affine)
+    A = fa(aff_of(g))
     if A[0] == 0 or A[4] == 0:
         return True, ""
     al = g.alignment
@@ -947,7 +999,7 @@ def acc_alignment(cx, g, gcp, case):
         d = abs(F(float(got)) - want)
         d = min(d, r - d)  # wraps at the pixel size
         ok = ok and d <= F(1, 10**9) * max(r, abs(t))
-    return ok, f"alignment {al} for affine {tuple(g._affine)[:6]}"
+    return ok, f"alignment {al} for affine {tuple(aff_of(g))[:6]}"
 
 
 def acc_boundary(cx, g, gcp, case):
@@ -972,7 +1024,7 @@ def acc_p2w(cx, g, gcp, case):
 
 
 def acc_w2p(cx, g, gcp, case):
-    A = fa(g._affine)
+    A = fa(aff_of(g))
     det = A[0] * A[4] - A[1] * A[3]
     if det == 0 or min(g.shape) <= 0:
         return True, ""
@@ -1004,7 +1056,7 @@ def acc_w2p(cx, g, gcp, case):
 def acc_extent(cx, g, gcp, case):
     if min(g.shape) <= 0:
         return True, ""
-    A = fa(g._affine)
+    A = fa(aff_of(g))
     if A[0] * A[4] - A[1] * A[3] == 0:
         return True, ""
     ny, nx = map(int, g.shape)
@@ -1042,7 +1094,7 @@ def acc_bbox(cx, g, gcp, case):
 def acc_coords(cx, g, gcp, case):
     if gcp is not None:
         return True, ""
-    A = fa(g._affine)
+    A = fa(aff_of(g))
     st = abs(A[1]) < F(1e-10) and abs(A[3]) < F(1e-10)
     ok_alias = type(g).coords is type(g).coordinates
     try:
@@ -1079,7 +1131,7 @@ def _res_ok(res, L, rel=F(1, 10**9), branch=None):
 
 
 def acc_resolution(cx, g, gcp, case):
-    A = fa(g._affine)
+    A = fa(aff_of(g))
     if A[0] * A[4] - A[1] * A[3] == 0:
         return True, ""
     res = g.resolution
@@ -1104,7 +1156,7 @@ def acc_project(cx, g, gcp, case):
     ny, nx = map(int, g.shape)
     if min(ny, nx) <= 0:
         return True, ""
-    A = fa(g._affine)
+    A = fa(aff_of(g))
     if A[0] * A[4] - A[1] * A[3] == 0:
         return True, ""
     rel, sc, e = _acc_slack(cx, gcp), _wscale(g, gcp), expected_p2w(g, gcp)
@@ -1118,7 +1170,7 @@ def acc_project(cx, g, gcp, case):
 def acc_footprint(cx, g, gcp, case):
     if g.crs is None or min(g.shape) <= 0:
         return True, ""
-    A = fa(g._affine)
+    A = fa(aff_of(g))
     if A[0] * A[4] - A[1] * A[3] == 0:
         return True, ""
     fp = g.footprint(g.crs)
@@ -1132,7 +1184,7 @@ def acc_footprint(cx, g, gcp, case):
 def acc_geographic_extent(cx, g, gcp, case):
     if min(g.shape) <= 0 or not (g.crs is None or g.crs.geographic):
         return True, ""
-    A = fa(g._affine)
+    A = fa(aff_of(g))
     if A[0] * A[4] - A[1] * A[3] == 0:
         return True, ""
     ge, ex = g.geographic_extent, g.extent
@@ -1142,7 +1194,7 @@ def acc_geographic_extent(cx, g, gcp, case):
 def acc_map_bounds(cx, g, gcp, case):
     if min(g.shape) <= 0 or not (g.crs is None or crs_tag(g.crs) == 1):
         return True, ""
-    A = fa(g._affine)
+    A = fa(aff_of(g))
     if A[0] * A[4] - A[1] * A[3] == 0:
         return True, ""
     (ya, xa), (yb, xb) = g.map_bounds()
@@ -1172,7 +1224,7 @@ def acc_approx(cx, g, gcp, case):
     if gcp is None:
         return True, ""
     ap = g.approx
-    A = fa(g._affine)
+    A = fa(aff_of(g))
     want = fa_mul(fa(gcp["mapping"].approx), A)
     got = fa(ap.affine)
     ny, nx = map(int, g.shape)
@@ -1200,11 +1252,11 @@ def acc_approx(cx, g, gcp, case):
 def acc_gcps(cx, g, gcp, case):
     if gcp is None:
         return True, ""
-    A = fa(g._affine)
+    A = fa(aff_of(g))
     if A[0] * A[4] - A[1] * A[3] == 0:
         return True, ""
     pts = g.gcps()
-    pix, wld = gcp["mapping"]._pix, gcp["mapping"]._wld
+    pix, wld = mapping_points(gcp["mapping"])
     ok = len(pts) == len(pix)
     for gp, (px, py), (wx, wy) in zip(pts, pix, wld):
         back = fa_apply(A, (F(float(gp.col)), F(float(gp.row))))
@@ -1366,7 +1418,7 @@ def falsy_sweep(R: Run, ops: Ops, cxE: Ctx, cxF: Ctx):
             gcp_step(R, ops, cxE, cxF, g, "zton", gctx, fixed=(max(ny, nx),))
             # gcps() of views whose pixel-side affine has a dyadic inverse: zoom, then crop, then pad
             for v in (g, g.zoom_out(2), g.zoom_out(2)[1:3, 2:5], g.zoom_out(0.5)[1:, 2:].pad(3, 1)):
-                cps = [f"{frac_s(px)};{frac_s(py)}" for px, py in mapping._pix]
+                cps = [f"{frac_s(px)};{frac_s(py)}" for px, py in mapping_points(mapping)[0]]
                 R.corr(f"c02 gcps {enc_gb(v)} " + list_s(cps),
                        lambda: list_s([f"{frac_s(float(gp.col))};{frac_s(float(gp.row))}" for gp in v.gcps()]), sig="gcp|gcps")
 
@@ -1433,7 +1485,7 @@ def region_vertices(roi):
     if isinstance(roi, GeoBoxBase):
         ny, nx = map(int, roi.shape)
         if getattr(roi, "linear", True):
-            A = fa(roi._affine)
+            A = fa(aff_of(roi))
             pts = [tuple(float(v) for v in fa_apply(A, (F(x), F(y)))) for x, y in [(0, 0), (0, ny), (nx, ny), (nx, 0), (0, 0)]]
         else:
             pts = [tuple(p) for p in roi.extent.exterior.points]
@@ -1457,7 +1509,7 @@ def region_oracle(cx: Ctx, g, roi, kind, got, gctx=None, clip=True):
     pixel-space bounding box, clipped to the parent, at least one pixel; for a window of the parent: the window"""
     R = cx.R
     ny, nx = map(int, g.shape)
-    A = fa(g._affine)
+    A = fa(aff_of(g))
     det = A[0] * A[4] - A[1] * A[3]
     pts, rcrs, closed = region_vertices(roi)
     desc = {"kind": kind, "crs": crs_tag(rcrs), "pts": [f"{frac_s(x)};{frac_s(y)}" for x, y in pts][:12]}
@@ -1499,7 +1551,7 @@ def region_oracle(cx: Ctx, g, roi, kind, got, gctx=None, clip=True):
     if clip and (hi[0] <= 0 or hi[1] <= 0 or lo[0] >= nx or lo[1] >= ny):
         return  # region does not meet the parent: nothing documented
     # the view must be a whole-pixel window of the parent
-    A2 = fa(got._affine)
+    A2 = fa(aff_of(got))
     T = fa_mul((A[4] / det, -A[1] / det, (A[1] * A[5] - A[4] * A[2]) / det, -A[3] / det, A[0] / det, (A[3] * A[2] - A[0] * A[5]) / det), A2)
     tx, ty = T[2], T[5]
     okwin = all(abs(T[i] - v) <= F(1, 10**9) for i, v in ((0, 1), (1, 0), (3, 0), (4, 1))) and \
@@ -1778,23 +1830,39 @@ def truth_eval(c, x, y):
 
 
 def fit_kind_lines(R: Run):
-    """Poly2d.fit's model selection, observed by substituting its three back-ends: number of terms per point count"""
+    """Poly2d.fit's model selection, observed by substituting its three back-ends: number of terms per point count.
+    The back-ends are private: when they are absent, or a call of fit() never reaches them (inlined / moved), the
+    observation point is gone and the case is skipped with a note — model selection is then judged by the
+    ground-truth stream (gcp_fit_stream) alone."""
     from odc.geo import math as M
-    orig = {k: getattr(M.Poly2d, k) for k in ("_fit3", "_fit4", "_fit9")}
+    from .common import guarded
+    P2 = getattr(M, "Poly2d", None)
+    names = (("_fit3", 3), ("_fit4", 4), ("_fit9", 9))
+    if P2 is None or any(not callable(getattr(P2, k, None)) for k, _ in names) or not callable(getattr(P2, "fit", None)):
+        R.notes.append("fit-kind: Poly2d._fit3/_fit4/_fit9 not found; model selection judged by the ground-truth stream only")
+        return
+    orig = {k: getattr(P2, k) for k, _ in names}
+    unobserved = 0
     for N in list(range(0, 30)) + [36, 49, 100]:
         seen = []
 
         def fn():
             try:
-                for k, terms in (("_fit3", 3), ("_fit4", 4), ("_fit9", 9)):
-                    setattr(M.Poly2d, k, staticmethod((lambda t, f: lambda *a: (seen.append(t), f(*a))[1])(terms, orig[k])))
+                for k, terms in names:
+                    setattr(P2, k, staticmethod((lambda t, f: lambda *a, **kw: (seen.append(t), f(*a, **kw))[1])(terms, orig[k])))
                 pts = np.asarray([((i * 7) % 11 + 0.25 * (i % 3), (i * 5) % 13 + 0.5 * (i % 2)) for i in range(N)], dtype="float64").reshape(-1, 2)
-                M.Poly2d.fit(pts, pts * 2.0 + 1.0)
+                P2.fit(pts, pts * 2.0 + 1.0)
             finally:
                 for k in orig:
-                    setattr(M.Poly2d, k, staticmethod(orig[k]))
+                    setattr(P2, k, staticmethod(orig[k]))
             return str(seen[0]) if len(seen) == 1 else f"calls:{seen}"
-        R.corr(f"c02 fitkind {N}", fn, sig="fit-kind")
+        out = guarded(fn)
+        if out == "calls:[]":
+            unobserved += 1
+            continue
+        R.corr(f"c02 fitkind {N}", lambda out=out: out, sig="fit-kind")
+    if unobserved:
+        R.notes.append(f"fit-kind: {unobserved} point counts did not reach the interposed back-ends (skipped)")
 
 
 def gcp_fit_stream(R: Run, ops: Ops):
@@ -1879,6 +1947,9 @@ def run(R: Run):
     # ---------- GCP fit: model selection per point count; exact ground truth at the boundary counts
     fit_kind_lines(R)
     gcp_fit_stream(R, ops)
+    # ---------- glue around the core: argument normalisers, dispatch on argument kind, error branches (growth round 2)
+    from .c02_glue import glue_stream
+    glue_stream(R, ops, cxE, cxF)
 
     # ---------- chains of 2-3 view ops; every public accessor is evaluated on every VIEW of the chain
     CH_OPS = ["crop2", "crop2", "crop1", "pad", "pad", "ztos", "ztos", "zout", "flipx", "flipy", "tpix", "rot", "cpix",
@@ -1891,12 +1962,12 @@ def run(R: Run):
                 check_accessors(cx, g)
             for step in range(rng.choice([2, 3])):
                 op = rng.choice(CH_OPS)
-                corr = exact and narrow(tuple(g._affine)[:6], 30)
+                corr = exact and narrow(tuple(aff_of(g))[:6], 30)
                 g2 = run_op(R, ops, cx if corr or not exact else cxF, op, g, corr, cls + f"|chain{step}")
                 if g2 is None or min(g2.shape) <= 0 or max(g2.shape) > 3000:
                     break
                 g = g2
-                check_accessors(cx if narrow(tuple(g._affine)[:6], 30) else cxF, g)
+                check_accessors(cx if narrow(tuple(aff_of(g))[:6], 30) else cxF, g)
 
     # ---------- exact stream: random geoboxes x every op
     for _ in range(R.pick(1200, 9000)):
@@ -1908,7 +1979,7 @@ def run(R: Run):
             # views of a derived geobox + a second op on it (compositions of views)
             if g2 is not None and rng.random() < 0.08 and not op.startswith("S:") and min(g2.shape) >= 0 \
                     and max(g2.shape) <= 512:
-                if all(abs(F(v).numerator).bit_length() <= 40 for v in tuple(g2._affine)[:6]):
+                if all(abs(F(v).numerator).bit_length() <= 40 for v in tuple(aff_of(g2))[:6]):
                     base_view_lines(R, ops, g2, cls + "+derived")
                     check_base_views(cxE, g2, TNI)
                     run_op(R, ops, cxE, rng.choice(["crop2", "pad", "flipx", "flipy", "tpix", "cpix", "left", "bottom"]),
@@ -2124,7 +2195,7 @@ def gcp_step(R: Run, ops: Ops, cxE: Ctx, cxF: Ctx, g, op, gctx, fixed=None):
         return enc_gb(o)
     # exactness: after zoom the affine may stop being dyadic; then only the oracle is used
     dy = all((F(v).denominator & (F(v).denominator - 1)) == 0 and abs(F(v).numerator).bit_length() < 40
-             for v in tuple(g._affine)[:6])
+             for v in tuple(aff_of(g))[:6])
     line = f"c02 {op} {enc_gb(g)}" + (f" {tail}" if tail else "")
     if dy:
         R.corr(line, fn, sig=f"gcp|{op}")
@@ -2137,7 +2208,7 @@ def gcp_step(R: Run, ops: Ops, cxE: Ctx, cxF: Ctx, g, op, gctx, fixed=None):
         return None
     g2 = res[0]
     case = {"op": "gcp-" + op, "gbox": enc_gb(g), "args": tail}
-    R.oracle(isinstance(g2, GCP.GCPGeoBox) and g2._mapping is mapping and g2.crs == g.crs,
+    R.oracle(isinstance(g2, GCP.GCPGeoBox) and mapping_of(g2, mapping) is mapping and g2.crs == g.crs,
              "gcp-view-lost-mapping", case, "GCP view does not share the mapping / crs of its parent")
     # the op's own contract on the (shape, affine, crs) triple, exactly as for GeoBox
     nfail = len(R.oracle_failures)
@@ -2148,7 +2219,7 @@ def gcp_step(R: Run, ops: Ops, cxE: Ctx, cxF: Ctx, g, op, gctx, fixed=None):
     for f_ in R.oracle_failures[nfail:]:
         f_["key"] = "gcp-" + f_["key"]
     # pixel contract through the (unknown) mapping: pix2wld(g2)(p) == pix2wld(g)(T p), T = A^-1 A2
-    A, A2 = fa(g._affine), fa(g2._affine)
+    A, A2 = fa(aff_of(g)), fa(aff_of(g2))
     det = A[0] * A[4] - A[1] * A[3]
     if det != 0 and min(g2.shape) > 0:
         ok = True
@@ -2320,10 +2391,13 @@ def replay(R: Run, rec) -> int:
     print("geobox:", g)
     R2 = Run(R.prop, R.tier, R.seed)
     R2.known = []
-    cx = Ctx(R2, all(F(v).denominator & (F(v).denominator - 1) == 0 for v in tuple(g._affine)[:6]) and key not in
+    cx = Ctx(R2, all(F(v).denominator & (F(v).denominator - 1) == 0 for v in tuple(aff_of(g))[:6]) and key not in
              ("zoom-to-int-longest-side", "zoom-to-int-shape"))
     cx.exact = False if key in ("bbox-misses-corner",) else cx.exact
-    if op == "region" and isinstance(args, dict) and "pts" in args:
+    from .c02_glue import replay_glue
+    if op in ("shape-arg", "zoom-to-args", "getitem", "project", "footprint", "gcp-resolution") and replay_glue(R2, g, op, args, key):
+        pass
+    elif op == "region" and isinstance(args, dict) and "pts" in args:
         from odc.geo import geom as G
         pts = [tuple(float(F(v)) for v in t.split(";")) for t in args["pts"]]
         crs = CRS_TAGS.get(int(args.get("crs", 0)))
@@ -2351,8 +2425,8 @@ def replay(R: Run, rec) -> int:
         ny0, nx0, baff, flag = args.split(" ")
         B = Affine(*[float(F(v)) for v in baff.split(";")])
         mapping = build_gcp_mapping(GCP, int(ny0), int(nx0), B, flag == "1")
-        gg = GCP.GCPGeoBox(tuple(map(int, g.shape)), mapping, g._affine)
-        print("GCP view:", gg, "pixel-side affine", tuple(g._affine)[:6], "control points related by", B, "exactly" if flag == "1" else "+ distortion")
+        gg = GCP.GCPGeoBox(tuple(map(int, g.shape)), mapping, aff_of(g))
+        print("GCP view:", gg, "pixel-side affine", tuple(aff_of(g))[:6], "control points related by", B, "exactly" if flag == "1" else "+ distortion")
         check_accessors(Ctx(R2, False), gg, {"mapping": mapping, "B": fa(B) if flag == "1" else None,
                                              "shape0": (int(ny0), int(nx0)), "desc": args})
     elif op == "views":
